@@ -184,6 +184,18 @@ pub fn run(ctx: &Ctx) -> Report {
     });
     total.merge(sp);
     crate::fuzzrun::replay_policy_trees(&mut total, |t| judge(t, false));
+    // expressions without action whose string arguments are tokens of the code generator's own
+    // sources (emitted call texts among them): the implicit print is decided by the tree, not by
+    // what the emitted text looks like
+    let mut std_ = Stats::new();
+    for tok in crate::dict::tokens() {
+        for t in [E::T(Tst::Pool(tok.clone())), E::or(E::T(Tst::Xattr(tok.clone())), E::T(Tst::XattrMatch("user.a".into(), tok.clone()))), E::and(E::T(Tst::True), E::not(E::T(Tst::Pool(tok.clone()))))] {
+            let v = judge(&t, false);
+            std_.record(&v, stable_hash(&t), true, || case_json(&t, false));
+        }
+    }
+    std_.samples.truncate(1);
+    total.merge(std_);
     // interaction triples: three supported leaf kinds under every operator skeleton
     let tr = crate::combo::run_triples(ctx.seed, &crate::combo::supported_kinds(), ctx.tier.pick(32, 2), |t| judge(t, stable_hash(t) % 4 == 0), |t| case_json(t, stable_hash(t) % 4 == 0));
     total.merge(tr);
